@@ -471,9 +471,13 @@ def replay_table(ctx, j, idx):
             sp = py(j["inp"]["s"]); rows = py(j["inp"]["rows"]); want = py(j["out"]); f = Structure(sp)
             got = list(f.filter(rows)); got2 = list(f.filter(iter(py(j["inp"]["rows"]))))
             if not (same(got, want) and same(got2, want)):
-                ctx.violation("structure:%s" % ("sparse" if rows and isinstance(rows[0], dict) else "dense"), "Structure(%r).filter(%r) -> %r, expected %r" % (sp, py(j["inp"]["rows"]), got, want), rep); return False
+                npos = json.dumps(j["inp"]["s"]).count('"key"')
+                dense = not (rows and isinstance(rows[0], dict))
+                ctx.violation("structure:%s" % ("sparse" if not dense else "dense:several-positions" if npos >= 2 else "dense"), "Structure(%r).filter(%r) -> %r, expected %r" % (sp, py(j["inp"]["rows"]), got, want), rep); return False
             return True
     except Exception as e:
+        if fam == "structure" and isinstance(e, IndexError) and json.dumps(j["inp"]["s"]).count('"key"') >= 2 and j["inp"]["rows"]["v"] and j["inp"]["rows"]["v"][0]["t"] == "list":
+            ctx.violation("structure:dense:several-positions", "Structure(%r).filter(%r) raised IndexError: %s" % (py(j["inp"]["s"]), py(j["inp"]["rows"]), e), rep); return False
         ctx.violation("%s:raises" % fam, "%s case %r raised %s: %s" % (fam, j["inp"], type(e).__name__, e), rep); return False
     raise AssertionError(fam)
 
@@ -588,4 +592,4 @@ def run(ctx):
         "join: Foreach.filter is lazy; when one stage occurs under two Foreach stages of one composite the call numbers inside the tokens are not compared (the order of the calls is not documented), the counts and the structure are",
         "queue: EOFError / BrokenPipeError end a reader / a write silently, any other exception propagates (the repository's tests); the TypeError / AssertionError clauses of the code are not exercised; a blocking read on an empty queue is never made",
         "disk: lines over {a, b} incl. the empty line, LF terminators only; a mode-'w' sink object opens its file once; reading is not specified while a gzip member is open; locations are byte offsets of the (decompressed) text",
-        "table: Flatten / Structure / Default on table shaped rows (every row has the cell types of the first); Structure addresses a dense row by at most one position; UrlSource is judged by the source object it builds (as the repository's tests do), nothing is fetched"]
+        "table: Flatten / Structure / Default on table shaped rows (every row has the cell types of the first); UrlSource is judged by the source object it builds (as the repository's tests do), nothing is fetched"]
